@@ -408,8 +408,12 @@ def judge(ctx, events, cp):
         if e['op'] == 'array':
             key['dimensioned'] = e['dimensioned']
             key['element_type'] = 'unicode' if e.get('unicode_elements') else e['t']
-            key['padded_to_11'] = bool(e['shape_out']) and all(n == 11 for n in e['shape_out']) and len(e['shape_out']) == len(e['shape_in']) \
-                and all(n <= 11 for n in e['shape_in'])
+            imp = 10 if e['base'] == 1 else 11
+            key['padded_to_implicit'] = bool(e['shape_out']) and all(n == imp for n in e['shape_out']) \
+                and len(e['shape_out']) == len(e['shape_in']) and all(n <= imp for n in e['shape_in'])
+            key['longer_than_implicit'] = any(n > imp for n in e['shape_in'])
+        if e['op'] == 'ustr':
+            key['nul_then_latin1'] = any(a == 0 and 128 <= b <= 255 for a, b in zip(e['x'], e['x'][1:]))
         if e['op'] == 'float':
             key['t'] = e['t']
         ctx.reject('C43 %s at %s (set: %s %s %s; got: %s %s)' % (
